@@ -1043,4 +1043,205 @@ theorem untilNul_name (cs : List Char) (k : Nat) (h : ∀ c ∈ cs, c ≠ Char.o
     rw [List.takeWhile_cons_of_pos (by simpa using this), ih (fun d hd => h d (by simp [hd]))]
 
 
+
+/-! ## directory entries -/
+
+
+theorem le16s_length (us : List Nat) : (le16s us).length = 2 * us.length := by
+  induction us with
+  | nil => rfl
+  | cons u us ih => simp only [le16s, List.flatMap_cons, List.length_append, List.length_cons] at *; rw [ih]; simp [le16]; omega
+
+theorem u16s_le16s (us : List Nat) (t : Bytes) (h : ∀ u ∈ us, u < 65536) : u16s (le16s us ++ t) = us ++ u16s t := by
+  induction us with
+  | nil => simp [le16s]
+  | cons u us ih =>
+    simp only [le16s, List.flatMap_cons, le16, List.cons_append, List.nil_append, u16s]
+    have hu := h u (by simp)
+    congr 1
+    · simp only [UInt8.toNat_ofNat']; omega
+    · exact ih (fun w hw => h w (by simp [hw]))
+
+theorem u16s_zeros (k : Nat) : u16s (List.replicate (2 * k) (0 : UInt8)) = List.replicate k 0 := by
+  induction k with
+  | zero => simp [u16s]
+  | succ k ih =>
+    have : 2 * (k + 1) = (2 * k + 1) + 1 := by omega
+    rw [this, List.replicate_succ, List.replicate_succ, u16s, ih, List.replicate_succ]
+    simp
+
+theorem utf16Units_lt (cs : List Char) : ∀ u ∈ utf16Units cs, u < 65536 := by
+  induction cs with
+  | nil => simp [utf16Units]
+  | cons c cs ih =>
+    have := char_valid c
+    unfold utf16Units
+    split
+    · intro u hu; simp only [List.mem_cons] at hu; rcases hu with rfl | hu; · assumption
+      exact ih u hu
+    · intro u hu; simp only [List.mem_cons] at hu
+      rcases hu with h | h | hu
+      · omega
+      · omega
+      · exact ih u hu
+
+
+/-- the 64-byte name field of a directory entry -/
+def nameField (name : List Char) : Bytes :=
+  le16s (utf16Units name) ++ List.replicate (64 - (le16s (utf16Units name)).length) 0
+
+theorem nameEncOK_spec (name : List Char) (h : nameEncOK name = true) :
+    0 < (utf16Units name).length ∧ (utf16Units name).length ≤ 31 ∧ (∀ c ∈ name, c ≠ Char.ofNat 0) ∧
+    (utf16Units name).head? ≠ some 0xFEFF ∧ (utf16Units name).head? ≠ some 0xFFFE ∧
+    ¬ ((utf16Units name).head? = some 0xBBEF ∧ ((utf16Units name).getD 1 0) % 256 = 0xBF) := by
+  unfold nameEncOK at h
+  simp only [Bool.and_eq_true, decide_eq_true_eq, Bool.not_eq_true', bne_iff_ne, ne_eq,
+    Bool.and_eq_false_iff, beq_eq_false_iff_ne, List.contains_eq_mem, decide_eq_false_iff_not] at h
+  obtain ⟨⟨⟨⟨⟨h1, h2⟩, h3⟩, h4⟩, h5⟩, h6⟩ := h
+  refine ⟨h1, h2, ?_, h4, h5, ?_⟩
+  · intro c hc he; subst he; exact h3 hc
+  · intro ⟨ha, hb⟩
+    rcases h6 with h6 | h6
+    · exact h6 ha
+    · exact h6 hb
+
+theorem decodeName64_field (name : List Char) (h : nameEncOK name = true) :
+    (decodeName64 (nameField name)).map untilNul = some name := by
+  obtain ⟨hpos, hle, hnul, hfe, hff, hbom⟩ := nameEncOK_spec name h
+  have hlt := utf16Units_lt name
+  obtain ⟨m, hm⟩ : ∃ m, m = (utf16Units name).length := ⟨_, rfl⟩
+  have hpad : 64 - (le16s (utf16Units name)).length = 2 * (32 - m) := by rw [le16s_length]; omega
+  have hU : u16s (nameField name) = utf16Units name ++ List.replicate (32 - m) 0 := by
+    unfold nameField
+    rw [hpad, u16s_le16s _ _ hlt, u16s_zeros]
+  cases hunits : utf16Units name with
+  | nil => rw [hunits] at hpos; simp at hpos
+  | cons u0 r =>
+    rw [hunits] at hU hfe hff hbom hlt
+    simp only [List.head?_cons, ne_eq, Option.some.injEq] at hfe hff hbom
+    have hu0 : u0 < 65536 := hlt u0 (by simp)
+    have hdec : decodeUtf16 (u0 :: r ++ List.replicate (32 - m) 0) = name ++ List.replicate (32 - m) (Char.ofNat 0) := by
+      rw [← hunits, decode_units, decode_zeros]
+    unfold decodeName64
+    rw [hU]
+    split
+    · rename_i rest heq; simp only [List.cons_append, List.cons.injEq] at heq; exact absurd heq.1 hfe
+    · rename_i rest heq; simp only [List.cons_append, List.cons.injEq] at heq; exact absurd heq.1 hff
+    · have hno : ¬ (nameField name).take 3 = [0xEF, 0xBB, 0xBF] := by
+        unfold nameField
+        rw [hpad, hunits]
+        intro hb
+        cases r with
+        | nil =>
+          have hm1 : m = 1 := by rw [hunits] at hm; simpa using hm
+          subst hm1
+          simp only [le16s, List.flatMap_cons, List.flatMap_nil, le16, List.append_nil, List.cons_append,
+            List.nil_append] at hb
+          have : (2 * (32 - 1)) = 61 + 1 := by omega
+          rw [this, List.replicate_succ] at hb
+          simp only [List.take_succ_cons, List.take_zero, List.cons.injEq, and_true] at hb
+          obtain ⟨_, _, h3⟩ := hb
+          have := congrArg UInt8.toNat h3
+          simp at this
+        | cons r0 r' =>
+          simp only [le16s, List.flatMap_cons, le16, List.cons_append, List.nil_append,
+            List.take_succ_cons, List.take_zero, List.cons.injEq, and_true] at hb
+          obtain ⟨h1, h2, h3⟩ := hb
+          have e1 := congrArg UInt8.toNat h1
+          have e2 := congrArg UInt8.toNat h2
+          have e3 := congrArg UInt8.toNat h3
+          simp only [UInt8.toNat_ofNat'] at e1 e2 e3
+          have hr0 : r0 < 65536 := hlt r0 (by simp)
+          apply hbom
+          simp only [List.getD_cons_succ, List.getD_cons_zero]
+          constructor
+          · have : (0xEF : UInt8).toNat = 0xEF := rfl
+            have : (0xBB : UInt8).toNat = 0xBB := rfl
+            omega
+          · have : (0xBF : UInt8).toNat = 0xBF := rfl
+            omega
+      simp only [hno, if_false, Option.map_some, Option.some.injEq]
+      rw [hdec]
+      exact untilNul_name name _ hnul
+
+
+theorem nameField_length (name : List Char) (h : (utf16Units name).length ≤ 31) : (nameField name).length = 64 := by
+  unfold nameField
+  simp only [List.length_append, List.length_replicate, le16s_length]
+  omega
+
+/-- everything of a directory entry before the start-sector field -/
+def entryHead (name : List Char) (typ : UInt8) : Bytes :=
+  nameField name ++ le16 ((le16s (utf16Units name)).length + 2) ++ [typ, 1] ++
+    le32 FREESECT ++ le32 FREESECT ++ le32 FREESECT ++ List.replicate 36 0
+
+theorem dirEntry_eq (name : List Char) (typ : UInt8) (start size : Nat) :
+    dirEntry name typ start size = entryHead name typ ++ (le32 start ++ le64 size) := by
+  simp only [dirEntry, entryHead, nameField, List.append_assoc]
+
+theorem entryHead_length (name : List Char) (typ : UInt8) (h : (utf16Units name).length ≤ 31) :
+    (entryHead name typ).length = 116 := by
+  unfold entryHead
+  simp only [List.length_append, nameField_length name h, List.length_replicate, le32_length, List.length_cons,
+    List.length_nil, le16]
+
+theorem u32At_le64_lo (v : Nat) : u32At (le64 v) 0 = v % 4294967296 := by
+  unfold le64
+  exact u32At_le32_zero _ _ (Nat.mod_lt _ (by omega))
+
+theorem u32At_le64_hi (v : Nat) (h : v < 18446744073709551616) : u32At (le64 v) 4 = v / 4294967296 := by
+  unfold le64
+  have := u32At_append_right (le32 (v % 4294967296)) (le32 (v / 4294967296)) 0
+  rw [le32_length] at this
+  rw [this]
+  have h2 := u32At_le32_zero (v / 4294967296) [] (by omega)
+  rwa [List.append_nil] at h2
+
+theorem fromSlice_dirEntry (name : List Char) (typ : UInt8) (start size ss : Nat) (hn : nameEncOK name = true)
+    (hs : start < 4294967296) (hsz : (ss = 512 ∧ size < 4294967296) ∨ (ss ≠ 512 ∧ size < 18446744073709551616)) :
+    Dir.fromSlice (dirEntry name typ start size) ss = .ok ⟨name, start, size⟩ := by
+  obtain ⟨_, hle, _⟩ := nameEncOK_spec name hn
+  have hH := entryHead_length name typ hle
+  have hlen : (dirEntry name typ start size).length = 128 := by
+    rw [dirEntry_eq]; simp only [List.length_append, hH, le32_length, le64]
+  have htake : (dirEntry name typ start size).take 64 = nameField name := by
+    rw [dirEntry_eq]; unfold entryHead
+    simp only [List.append_assoc]
+    exact List.take_left' (nameField_length name hle)
+  have h116 : u32At (dirEntry name typ start size) 116 = start := by
+    rw [dirEntry_eq]
+    have := u32At_append_right (entryHead name typ) (le32 start ++ le64 size) 0
+    rw [hH] at this
+    rw [this]; exact u32At_le32_zero _ _ hs
+  have h120 : u32At (dirEntry name typ start size) 120 = size % 4294967296 := by
+    rw [dirEntry_eq, ← List.append_assoc]
+    have := u32At_append_right (entryHead name typ ++ le32 start) (le64 size) 0
+    simp only [List.length_append, hH, le32_length] at this
+    rw [this]; exact u32At_le64_lo size
+  have hname := decodeName64_field name hn
+  unfold Dir.fromSlice
+  simp only [hlen, htake]
+  cases hd : decodeName64 (nameField name) with
+  | none => rw [hd] at hname; simp at hname
+  | some cs =>
+    rw [hd] at hname
+    simp only [Option.map_some, Option.some.injEq] at hname
+    have n1 : ¬ (128 < 120) := by omega
+    have n2 : ¬ (128 < 124) := by omega
+    simp only [Nat.lt_irrefl, if_false, n1, n2, hname, h116]
+    rcases hsz with ⟨h1, h2⟩ | ⟨h1, h2⟩
+    · simp only [h1, if_true, h120]
+      rw [Nat.mod_eq_of_lt h2]
+    · simp only [h1, if_false]
+      have h124 : u32At (dirEntry name typ start size) 124 = size / 4294967296 := by
+        rw [dirEntry_eq, ← List.append_assoc]
+        have := u32At_append_right (entryHead name typ ++ le32 start) (le64 size) 4
+        simp only [List.length_append, hH, le32_length] at this
+        rw [this]; exact u32At_le64_hi size h2
+      simp only [u64At, h120, h124]
+      congr 2
+      have := Nat.mod_add_div size 4294967296
+      omega
+
+
 end Cfb
